@@ -10,14 +10,47 @@ def showSlot : Option Nat → String
   | none => "0"
   | some v => toString v
 
-def showState (r : R) : String :=
-  s!"h={r.head} t={r.tail} e={joinWith "," (r.elems.map showSlot)}"
+/-- current run of the slot encoder: nothing yet, `n` zero slots, or the ascending values `a..b` -/
+inductive Run where
+  | empty
+  | zeros (n : Nat)
+  | asc (a b : Nat)
 
-/-- the iterator callback used by both sides: add `d`, stop after an element `x` with `x % m = k` -/
-def cb (d m k : Nat) (o : Option Nat) : Option Nat × Bool :=
+/-- emit the tokens of a finished run (prepended: the token list is built in reverse) -/
+def flush : Run → List String → List String
+  | .empty, acc => acc
+  | .zeros n, acc => (if n == 1 then "0" else s!"0*{n}") :: acc
+  | .asc a b, acc =>
+    if b == a then toString a :: acc
+    else if b == a + 1 then toString b :: toString a :: acc
+    else s!"{a}..{b}" :: acc
+
+/-- LOSSLESS run-length form of the raw slots (0 = cleared slot), the same state machine as
+`encodeSlots` in harness/comp/ring/ring.go: maximal zero runs `0`/`0*z`, maximal ascending runs of
+≥ 3 consecutive non-zero values `v..w`, everything else value by value. -/
+def rle : List (Option Nat) → Run → List String → List String
+  | [], run, acc => (flush run acc).reverse
+  | o :: vs, run, acc =>
+    let v := o.getD 0
+    if v == 0 then
+      match run with
+      | .zeros n => rle vs (.zeros (n + 1)) acc
+      | _ => rle vs (.zeros 1) (flush run acc)
+    else
+      match run with
+      | .asc a b => if v == b + 1 then rle vs (.asc a v) acc else rle vs (.asc v v) (flush run acc)
+      | _ => rle vs (.asc v v) (flush run acc)
+
+def showState (r : R) : String :=
+  s!"h={r.head} t={r.tail} e={joinWith "," (rle r.elems .empty [])}"
+
+/-- the iterator callback used by both sides: add `d`, stop after an element `x` with `x % m = k`;
+the closure state is an order-sensitive checksum of the values seen (`acc*31 + x mod 2^32`),
+printed as the op's output, so the visiting order itself is observed (initial state 1). -/
+def cb (d m k : Nat) (acc : Nat) (o : Option Nat) : Ring.CbRes Nat Nat :=
   match o with
-  | none => (some d, true)            -- Go: zero value 0 + d (unreachable for well-formed rings)
-  | some x => (some (x + d), !(x % m == k))
+  | none => ⟨(acc * 31) % 4294967296, some d, !(0 % m == k)⟩   -- Go: zero value (unreachable for well-formed rings)
+  | some x => ⟨(acc * 31 + x) % 4294967296, some (x + d), !(x % m == k)⟩
 
 def step (r : R) : List String → R × String
   | ["new", n] => match n.toInt? with
@@ -39,10 +72,10 @@ def step (r : R) : List String → R × String
   | ["isfull"] => (r, s!"{r.isFull} {showState r}")
   | ["maxlen"] => (r, s!"{r.maxLen} {showState r}")
   | ["foreach", d, m, k] => match d.toNat?, m.toNat?, k.toNat? with
-    | some d, some m, some k => let r' := r.forEach (cb d m k); (r', s!"ok {showState r'}")
+    | some d, some m, some k => let p := r.forEach (cb d m k) 1; (p.2, s!"{p.1} {showState p.2}")
     | _, _, _ => (r, "bad-op")
   | ["foreachrev", d, m, k] => match d.toNat?, m.toNat?, k.toNat? with
-    | some d, some m, some k => let r' := r.forEachReverse (cb d m k); (r', s!"ok {showState r'}")
+    | some d, some m, some k => let p := r.forEachReverse (cb d m k) 1; (p.2, s!"{p.1} {showState p.2}")
     | _, _, _ => (r, "bad-op")
   | _ => (r, "bad-op")
 
